@@ -246,11 +246,43 @@ func c18HobBoundary(r *core.Run) {
 	r.Probe("hob-boundary")
 }
 
+// c18InnerCut: event data whose size field is consistent but whose SP800-155 payload is cut short
+// (down to the bare 16-byte signature): a truncated near-valid encoding, to be refused — and
+// certainly not accepted as some other kind of event.
+func c18InnerCut(r *core.Run) {
+	ev := genSP(r)
+	full, err := ev.MarshalToBytes() // signature + payload
+	if err != nil || len(full) <= 16 {
+		return
+	}
+	k := []int{16, 17, 18, 20, 36, len(full) - 1}[r.Intn(6, "inner-cut-at")]
+	if k >= len(full) || k < 16 {
+		return
+	}
+	data := full[:k]
+	framed := append([]byte{byte(len(data)), byte(len(data) >> 8), byte(len(data) >> 16), byte(len(data) >> 24)}, data...)
+	var ed eventlog.TCGEventData
+	err = ed.Unmarshal(bytes.NewReader(framed))
+	outcome := "refused"
+	if err == nil {
+		outcome = "accepted"
+	}
+	r.Eval(fmt.Sprintf("TCGEventData|inner-cut@%d|%s", k, outcome), true)
+	if err == nil {
+		r.Fail("truncation-accepted", "TCGEventData/inner-cut", "TCGEventData: event data of %d bytes carrying the SP800-155 Event3 signature and only %d of %d payload bytes was accepted (as %T)", k, k-16, len(full)-16, ed.Event)
+	}
+	r.Probe("inner-cut")
+}
+
 func runC18(r *core.Run) {
 	strLens, badDigests = nil, 0
 	defer func() { strLens, badDigests = nil, 0 }()
 	if r.Chance(6, "hob-boundary?") {
 		c18HobBoundary(r)
+		strLens, badDigests = nil, 0
+	}
+	if r.Chance(10, "inner-cut?") {
+		c18InnerCut(r)
 		strLens, badDigests = nil, 0
 	}
 	// the value under test and a factory for empty values of its type
